@@ -1,26 +1,1206 @@
 package sym
 
+// A generic model of protobuf-go over the generated struct layout.  Messages are
+// the engine's heap objects of the real generated Go types; the descriptor
+// table is derived from the `protobuf:"..."` struct tags of the current tree.
+// Scalars stay symbolic; presence of pointers/oneof arms and list/map sizes are
+// concrete on a path.  Unknown fields are assumed empty.
+
 import (
+	"fmt"
 	"go/types"
+	"reflect"
+	"strconv"
+	"strings"
 
 	"golang.org/x/tools/go/ssa"
+
+	"verif/engine/smt"
 )
 
-type pbMsgInfo struct{}
-type PRMsg struct{ L *Loc }
-type PRField struct{}
-type PRList struct{}
-type PRMap struct{}
-type PRFields struct{}
-type PRMsgDesc struct{}
+type pbFieldInfo struct {
+	Name     string
+	JSON     string
+	Number   int
+	Kind     string // bool int32 sint32 sfixed32 uint32 fixed32 int64 sint64 sfixed64 uint64 fixed64 float double string bytes enum message group
+	List     bool
+	Map      bool
+	Explicit bool // explicit presence (pointer / oneof member / message)
+	GoIdx    int
+	GoT      types.Type
+	Oneof    string
+	WrapT    types.Type // *Wrapper for oneof members
+	MsgT     types.Type // *Msg for message kind (singular, list element or map value)
+	MapKey   *pbFieldInfo
+	MapVal   *pbFieldInfo
+	Parent   *pbMsgInfo
+	Index    int
+}
+
+type pbMsgInfo struct {
+	T        *types.Named
+	PtrT     types.Type
+	FullName string
+	Name     string
+	Fields   []*pbFieldInfo
+	byName   map[string]*pbFieldInfo
+	desc     *PRMsgDesc
+}
+
+// runtime objects
+type PRMsg struct {
+	L    *Loc // nil: invalid (typed nil) message
+	Info *pbMsgInfo
+}
+type PRField struct{ F *pbFieldInfo }
+type PRMsgDesc struct{ Info *pbMsgInfo }
+type PRFields struct{ Info *pbMsgInfo }
+type PRList struct {
+	Slot *Loc // location holding the SliceV (nil: detached empty read-only list)
+	F    *pbFieldInfo
+	tmp  SliceV
+}
+type PRMap struct {
+	Slot *Loc
+	F    *pbFieldInfo
+}
 type PREnum struct{}
 type ListStub struct{}
 
-func (ex *Exec) pbMethod(g *G, recv Value, name string, args []Value, done func(Value)) {
-	ex.unsupported("protobuf reflection method " + name)
+// PRVal models protoreflect.Value / MapKey.
+type PRVal struct {
+	Kind string // bool int32 int64 uint32 uint64 float double string bytes enum message list map invalid
+	T    *smt.Term
+	B    SliceV
+	M    *PRMsg
+	L    *PRList
+	Mp   *PRMap
 }
 
+var kindNum = map[string]uint64{
+	"bool": 8, "enum": 14, "int32": 5, "sint32": 17, "uint32": 13, "int64": 3, "sint64": 18, "uint64": 4,
+	"sfixed32": 15, "fixed32": 7, "float": 2, "sfixed64": 16, "fixed64": 6, "double": 1, "string": 9, "bytes": 12,
+	"message": 11, "group": 10,
+}
+
+func isPBStruct(t types.Type) (*types.Named, bool) {
+	n, ok := t.(*types.Named)
+	if !ok {
+		return nil, false
+	}
+	st, ok := n.Underlying().(*types.Struct)
+	if !ok || st.NumFields() < 1 || st.Field(0).Name() != "state" {
+		return nil, false
+	}
+	if !strings.HasSuffix(st.Field(0).Type().String(), "impl.MessageState") {
+		return nil, false
+	}
+	return n, true
+}
+
+func isPBPtr(t types.Type) (*types.Named, bool) {
+	p, ok := t.(*types.Pointer)
+	if !ok {
+		return nil, false
+	}
+	return isPBStruct(p.Elem())
+}
+
+func parseTag(tag string) (wire string, num int, label string, kv map[string]string, flags map[string]bool) {
+	parts := strings.Split(tag, ",")
+	kv = map[string]string{}
+	flags = map[string]bool{}
+	if len(parts) >= 3 {
+		wire = parts[0]
+		num, _ = strconv.Atoi(parts[1])
+		label = parts[2]
+		for _, p := range parts[3:] {
+			if i := strings.IndexByte(p, '='); i >= 0 {
+				kv[p[:i]] = p[i+1:]
+			} else {
+				flags[p] = true
+			}
+		}
+	}
+	return
+}
+
+func scalarKind(wire string, gt types.Type, kv map[string]string) string {
+	if _, isEnum := kv["enum"]; isEnum {
+		return "enum"
+	}
+	if p, ok := gt.(*types.Pointer); ok {
+		gt = p.Elem()
+	}
+	if sl, ok := gt.Underlying().(*types.Slice); ok {
+		if b, ok := sl.Elem().Underlying().(*types.Basic); ok && b.Kind() == types.Uint8 {
+			return "bytes"
+		}
+	}
+	b, ok := gt.Underlying().(*types.Basic)
+	if !ok {
+		if wire == "group" {
+			return "group"
+		}
+		return "message"
+	}
+	switch b.Kind() {
+	case types.Bool:
+		return "bool"
+	case types.String:
+		return "string"
+	case types.Float32:
+		return "float"
+	case types.Float64:
+		return "double"
+	case types.Int32:
+		switch wire {
+		case "zigzag32":
+			return "sint32"
+		case "fixed32":
+			return "sfixed32"
+		}
+		return "int32"
+	case types.Int64:
+		switch wire {
+		case "zigzag64":
+			return "sint64"
+		case "fixed64":
+			return "sfixed64"
+		}
+		return "int64"
+	case types.Uint32:
+		if wire == "fixed32" {
+			return "fixed32"
+		}
+		return "uint32"
+	case types.Uint64:
+		if wire == "fixed64" {
+			return "fixed64"
+		}
+		return "uint64"
+	}
+	return "message"
+}
+
+var wellKnownFullNames = map[string]string{
+	"google.golang.org/protobuf/types/known/timestamppb.Timestamp": "google.protobuf.Timestamp",
+	"google.golang.org/protobuf/types/known/durationpb.Duration":   "google.protobuf.Duration",
+	"google.golang.org/protobuf/types/known/fieldmaskpb.FieldMask": "google.protobuf.FieldMask",
+	"google.golang.org/protobuf/types/known/emptypb.Empty":         "google.protobuf.Empty",
+}
+
+func (e *Engine) msgInfo(n *types.Named) *pbMsgInfo {
+	key := n.Obj().Pkg().Path() + "." + n.Obj().Name()
+	e.mu.Lock()
+	if mi, ok := e.pbInfos[key]; ok {
+		e.mu.Unlock()
+		return mi
+	}
+	mi := &pbMsgInfo{T: n, PtrT: types.NewPointer(n), byName: map[string]*pbFieldInfo{}}
+	e.pbInfos[key] = mi
+	e.mu.Unlock()
+	// names
+	goName := n.Obj().Name()
+	mi.Name = goName
+	if i := strings.LastIndex(goName, "_"); i > 0 {
+		if o := n.Obj().Pkg().Scope().Lookup(goName[:i]); o != nil {
+			if _, ok := isPBStruct(o.Type()); ok {
+				mi.Name = goName[i+1:]
+			}
+		}
+	}
+	if fn, ok := wellKnownFullNames[key]; ok {
+		mi.FullName = fn
+	} else {
+		mi.FullName = "go." + n.Obj().Pkg().Name() + "." + strings.ReplaceAll(goName, "_", ".")
+	}
+	st := n.Underlying().(*types.Struct)
+	for i := 0; i < st.NumFields(); i++ {
+		f := st.Field(i)
+		tag := reflect.StructTag(st.Tag(i))
+		if on, ok := tag.Lookup("protobuf_oneof"); ok {
+			// enumerate wrapper types implementing the oneof interface
+			iface, _ := f.Type().Underlying().(*types.Interface)
+			scope := n.Obj().Pkg().Scope()
+			for _, name := range scope.Names() {
+				tn, ok := scope.Lookup(name).(*types.TypeName)
+				if !ok {
+					continue
+				}
+				wn, ok := tn.Type().(*types.Named)
+				if !ok {
+					continue
+				}
+				wst, ok := wn.Underlying().(*types.Struct)
+				if !ok || wst.NumFields() != 1 || iface == nil {
+					continue
+				}
+				if !types.Implements(types.NewPointer(wn), iface) {
+					continue
+				}
+				wtag, ok := reflect.StructTag(wst.Tag(0)).Lookup("protobuf")
+				if !ok {
+					continue
+				}
+				fi := e.fieldFromTag(mi, wtag, wst.Field(0).Type(), i, "", "")
+				fi.Oneof = on
+				fi.Explicit = true
+				fi.WrapT = types.NewPointer(wn)
+				mi.Fields = append(mi.Fields, fi)
+			}
+			continue
+		}
+		pt, ok := tag.Lookup("protobuf")
+		if !ok {
+			continue
+		}
+		fi := e.fieldFromTag(mi, pt, f.Type(), i, tag.Get("protobuf_key"), tag.Get("protobuf_val"))
+		mi.Fields = append(mi.Fields, fi)
+	}
+	// order: by Go struct position, oneof members by field number within their slot
+	for i := range mi.Fields {
+		for j := i + 1; j < len(mi.Fields); j++ {
+			a, b := mi.Fields[i], mi.Fields[j]
+			if b.GoIdx < a.GoIdx || (b.GoIdx == a.GoIdx && b.Number < a.Number) {
+				mi.Fields[i], mi.Fields[j] = b, a
+			}
+		}
+	}
+	for i, f := range mi.Fields {
+		f.Index = i
+		mi.byName[f.Name] = f
+	}
+	mi.desc = &PRMsgDesc{Info: mi}
+	return mi
+}
+
+func (e *Engine) fieldFromTag(mi *pbMsgInfo, tag string, gt types.Type, goIdx int, keyTag, valTag string) *pbFieldInfo {
+	wire, num, label, kv, flags := parseTag(tag)
+	fi := &pbFieldInfo{Name: kv["name"], JSON: kv["json"], Number: num, GoIdx: goIdx, GoT: gt, Parent: mi}
+	if fi.JSON == "" {
+		fi.JSON = fi.Name
+	}
+	if mt, ok := gt.Underlying().(*types.Map); ok && keyTag != "" {
+		fi.Map = true
+		fi.Kind = "message"
+		fi.MapKey = e.fieldFromTag(mi, keyTag, mt.Key(), goIdx, "", "")
+		fi.MapVal = e.fieldFromTag(mi, valTag, mt.Elem(), goIdx, "", "")
+		return fi
+	}
+	et := gt
+	if label == "rep" {
+		if sl, ok := gt.Underlying().(*types.Slice); ok {
+			if b, isB := sl.Elem().Underlying().(*types.Basic); !(isB && b.Kind() == types.Uint8 && wire == "bytes" && false) {
+				fi.List = true
+				et = sl.Elem()
+			}
+		}
+	}
+	fi.Kind = scalarKind(wire, et, kv)
+	if fi.Kind == "message" || fi.Kind == "group" {
+		fi.MsgT = et
+		fi.Explicit = !fi.List
+	} else if _, isPtr := et.(*types.Pointer); isPtr && !fi.List {
+		fi.Explicit = true
+	}
+	_ = flags
+	return fi
+}
+
+// ---- helpers over message locations ----
+
+func (ex *Exec) prMsgOf(v Value) (*PRMsg, bool) {
+	iv, ok := v.(IfaceV)
+	if ok {
+		if m, ok := iv.V.(*PRMsg); ok {
+			return m, true
+		}
+		if iv.T == nil {
+			return nil, false
+		}
+		n, ok := isPBPtr(iv.T)
+		if !ok {
+			return nil, false
+		}
+		p, ok := iv.V.(Ptr)
+		if !ok {
+			return nil, false
+		}
+		return &PRMsg{L: p.L, Info: ex.E.msgInfo(n)}, true
+	}
+	return nil, false
+}
+
+func (ex *Exec) msgIface(m *PRMsg) Value {
+	return IfaceV{T: m.Info.PtrT, V: Ptr{m.L}}
+}
+
+func (ex *Exec) newMsg(info *pbMsgInfo) *PRMsg {
+	return &PRMsg{L: ex.newLoc(info.T), Info: info}
+}
+
+func (ex *Exec) infoOfPtrT(t types.Type) *pbMsgInfo {
+	n, ok := isPBPtr(t)
+	if !ok {
+		ex.unsupported("not a generated message type: " + t.String())
+	}
+	return ex.E.msgInfo(n)
+}
+
+// slot returns the struct-field location of f in message m.
+func (m *PRMsg) slot(f *pbFieldInfo) *Loc { return m.L.Kids[f.GoIdx] }
+
+func kindSort(kind string) smt.Sort {
+	switch kind {
+	case "bool":
+		return smt.Bool
+	case "int32", "sint32", "sfixed32", "uint32", "fixed32", "enum":
+		return smt.BV(32)
+	case "int64", "sint64", "sfixed64", "uint64", "fixed64":
+		return smt.BV(64)
+	case "float":
+		return smt.F32
+	case "double":
+		return smt.F64
+	case "string":
+		return smt.Str
+	}
+	return smt.Sort{}
+}
+
+func valKind(kind string) string {
+	switch kind {
+	case "sint32", "sfixed32":
+		return "int32"
+	case "sint64", "sfixed64":
+		return "int64"
+	case "fixed32":
+		return "uint32"
+	case "fixed64":
+		return "uint64"
+	case "group":
+		return "message"
+	}
+	return kind
+}
+
+// nonZero: presence test of an implicit-presence scalar.
+func (ex *Exec) nonZero(kind string, t *smt.Term) *smt.Term {
+	B := ex.B
+	switch t.Sort.K {
+	case smt.KBool:
+		return t
+	case smt.KBV:
+		return B.Not(B.Eq(t, B.BVC(0, t.Sort.W)))
+	case smt.KStr:
+		return B.Not(B.Eq(t, B.StrC("")))
+	case smt.KFP:
+		return B.Not(B.Eq(B.FToBits(t), B.BVC(0, t.Sort.W)))
+	}
+	panic("nonZero")
+}
+
+// oneofArm returns the field info of the populated arm stored in slot (nil if none).
+func (ex *Exec) oneofWrapper(m *PRMsg, f *pbFieldInfo) *Loc {
+	iv, _ := m.slot(f).V.(IfaceV)
+	if iv.T == nil || !types.Identical(iv.T, f.WrapT) {
+		return nil
+	}
+	p, _ := iv.V.(Ptr)
+	return p.L
+}
+
+// has: presence as a term (constant whenever structure decides it).
+func (ex *Exec) pbHas(m *PRMsg, f *pbFieldInfo) *smt.Term {
+	if m.L == nil {
+		return ex.B.False()
+	}
+	if f.Oneof != "" {
+		return ex.boolC(ex.oneofWrapper(m, f) != nil)
+	}
+	s := m.slot(f)
+	switch {
+	case f.Map:
+		mv, _ := s.V.(MapV)
+		return ex.boolC(mv.M != nil && len(mv.M.Keys) > 0)
+	case f.List:
+		sv, _ := s.V.(SliceV)
+		return ex.boolC(sv.Len > 0)
+	case f.Explicit:
+		p, _ := s.V.(Ptr)
+		return ex.boolC(p.L != nil)
+	case f.Kind == "bytes":
+		sv, _ := s.V.(SliceV)
+		return ex.boolC(sv.Len > 0)
+	}
+	return ex.nonZero(f.Kind, termOf(s.V))
+}
+
+func (ex *Exec) zeroScalar(kind string) *smt.Term {
+	so := kindSort(kind)
+	switch so.K {
+	case smt.KBool:
+		return ex.B.False()
+	case smt.KBV:
+		return ex.B.BVC(0, so.W)
+	case smt.KStr:
+		return ex.B.StrC("")
+	case smt.KFP:
+		return ex.B.FPC(0, so.W)
+	}
+	panic("zeroScalar " + kind)
+}
+
+// pbGet returns the value of field f (default when unset).
+func (ex *Exec) pbGet(m *PRMsg, f *pbFieldInfo) *PRVal {
+	if f.Map {
+		if m.L == nil {
+			return &PRVal{Kind: "map", Mp: &PRMap{F: f}}
+		}
+		return &PRVal{Kind: "map", Mp: &PRMap{Slot: m.slot(f), F: f}}
+	}
+	if f.List {
+		if m.L == nil {
+			return &PRVal{Kind: "list", L: &PRList{F: f}}
+		}
+		return &PRVal{Kind: "list", L: &PRList{Slot: m.slot(f), F: f}}
+	}
+	var holder *Loc // location holding the Go value
+	if m.L != nil {
+		if f.Oneof != "" {
+			if w := ex.oneofWrapper(m, f); w != nil {
+				holder = w.Kids[0]
+			}
+		} else {
+			holder = m.slot(f)
+		}
+	}
+	return ex.valFromGo(f, holder)
+}
+
+// valFromGo converts the Go representation stored in holder (nil: unset) to a PRVal of singular field f.
+func (ex *Exec) valFromGo(f *pbFieldInfo, holder *Loc) *PRVal {
+	k := valKind(f.Kind)
+	if k == "message" {
+		info := ex.infoOfPtrT(f.MsgT)
+		if holder == nil {
+			return &PRVal{Kind: "message", M: &PRMsg{Info: info}}
+		}
+		p, _ := holder.V.(Ptr)
+		return &PRVal{Kind: "message", M: &PRMsg{L: p.L, Info: info}}
+	}
+	if k == "bytes" {
+		if holder == nil {
+			return &PRVal{Kind: "bytes"}
+		}
+		sv, _ := holder.V.(SliceV)
+		return &PRVal{Kind: "bytes", B: sv}
+	}
+	if holder == nil {
+		return &PRVal{Kind: k, T: ex.zeroScalar(f.Kind)}
+	}
+	v := holder.V
+	if p, ok := v.(Ptr); ok { // explicit-presence scalar
+		if p.L == nil {
+			return &PRVal{Kind: k, T: ex.zeroScalar(f.Kind)}
+		}
+		v = p.L.V
+	}
+	return &PRVal{Kind: k, T: termOf(v)}
+}
+
+// goFromVal converts a PRVal to the Go representation of an element of field f (scalar term, Ptr to message, bytes slice).
+func (ex *Exec) goFromVal(f *pbFieldInfo, v *PRVal) Value {
+	k := valKind(f.Kind)
+	switch k {
+	case "message":
+		if v.Kind != "message" {
+			ex.pbPanic(fmt.Sprintf("type mismatch: cannot convert %s to message", v.Kind))
+		}
+		return Ptr{v.M.L}
+	case "bytes":
+		return v.B
+	}
+	if v.T == nil {
+		ex.pbPanic(fmt.Sprintf("type mismatch: cannot convert %s to %s", v.Kind, k))
+	}
+	t := v.T
+	want := kindSort(f.Kind)
+	if t.Sort != want {
+		switch {
+		case t.Sort.K == smt.KBV && want.K == smt.KBV && want.W < t.Sort.W:
+			t = ex.B.Extract(t, want.W-1, 0)
+		case t.Sort.K == smt.KFP && want.K == smt.KFP:
+			t = ex.B.FToFP(t, want.W)
+		default:
+			ex.pbPanic(fmt.Sprintf("type mismatch: value of kind %s for field of kind %s", v.Kind, f.Kind))
+		}
+	}
+	return t
+}
+
+func (ex *Exec) pbPanic(msg string) {
+	ex.goPanic(ex.cur, IfaceV{V: &ErrObj{Kind: "runtime", Msg: msg}}, msg)
+	panic(pbUnwind{})
+}
+
+type pbUnwind struct{}
+
+// pbSet stores v into singular field f.
+func (ex *Exec) pbSet(m *PRMsg, f *pbFieldInfo, v *PRVal) {
+	if m.L == nil {
+		ex.pbPanic("invalid message: cannot set field of nil message")
+	}
+	if f.Map {
+		if v.Kind != "map" {
+			ex.pbPanic("type mismatch: expected map")
+		}
+		ex.store(m.slot(f), v.Mp.Slot.V)
+		return
+	}
+	if f.List {
+		if v.Kind != "list" {
+			ex.pbPanic("type mismatch: expected list")
+		}
+		ex.store(m.slot(f), v.L.slice())
+		return
+	}
+	gv := ex.goFromVal(f, v)
+	if f.Oneof != "" {
+		w := ex.newLoc(f.WrapT.(*types.Pointer).Elem())
+		ex.storeRaw(w.Kids[0], gv)
+		ex.store(m.slot(f), IfaceV{T: f.WrapT, V: Ptr{w}})
+		return
+	}
+	if f.Explicit && valKind(f.Kind) != "message" {
+		cell := ex.newLoc(f.GoT.(*types.Pointer).Elem())
+		cell.V = gv
+		ex.store(m.slot(f), Ptr{cell})
+		return
+	}
+	ex.store(m.slot(f), gv)
+}
+
+func (ex *Exec) pbClear(m *PRMsg, f *pbFieldInfo) {
+	if m.L == nil {
+		return
+	}
+	if f.Oneof != "" {
+		if ex.oneofWrapper(m, f) != nil {
+			ex.store(m.slot(f), IfaceV{})
+		}
+		return
+	}
+	ex.store(m.slot(f), ex.zero(f.GoT))
+}
+
+// pbMutable returns a mutable reference to a composite field, creating it if needed.
+func (ex *Exec) pbMutable(m *PRMsg, f *pbFieldInfo) *PRVal {
+	if m.L == nil {
+		ex.pbPanic("invalid message: Mutable on nil message")
+	}
+	switch {
+	case f.Map:
+		s := m.slot(f)
+		if mv, _ := s.V.(MapV); mv.M == nil {
+			mt := f.GoT.Underlying().(*types.Map)
+			ex.nobj++
+			ex.store(s, MapV{&MapObj{KT: mt.Key(), VT: mt.Elem(), ID: ex.nobj}})
+		}
+		return &PRVal{Kind: "map", Mp: &PRMap{Slot: s, F: f}}
+	case f.List:
+		return &PRVal{Kind: "list", L: &PRList{Slot: m.slot(f), F: f}}
+	case valKind(f.Kind) == "message":
+		info := ex.infoOfPtrT(f.MsgT)
+		if f.Oneof != "" {
+			if w := ex.oneofWrapper(m, f); w != nil {
+				if p, _ := w.Kids[0].V.(Ptr); p.L != nil {
+					return &PRVal{Kind: "message", M: &PRMsg{L: p.L, Info: info}}
+				}
+			}
+			nm := ex.newMsg(info)
+			ex.pbSet(m, f, &PRVal{Kind: "message", M: nm})
+			return &PRVal{Kind: "message", M: nm}
+		}
+		s := m.slot(f)
+		if p, _ := s.V.(Ptr); p.L != nil {
+			return &PRVal{Kind: "message", M: &PRMsg{L: p.L, Info: info}}
+		}
+		nm := ex.newMsg(info)
+		ex.store(s, Ptr{nm.L})
+		return &PRVal{Kind: "message", M: nm}
+	}
+	ex.pbPanic("invalid Mutable on field with non-composite type")
+	return nil
+}
+
+func (l *PRList) slice() SliceV {
+	if l.Slot == nil {
+		return l.tmp
+	}
+	sv, _ := l.Slot.V.(SliceV)
+	return sv
+}
+
+func (ex *Exec) listElemVal(l *PRList, i int) *PRVal {
+	sv := l.slice()
+	return ex.valFromGo(l.F, sv.Arr.Kids[sv.Off+i])
+}
+
+func (ex *Exec) elemType(f *pbFieldInfo) types.Type {
+	return f.GoT.Underlying().(*types.Slice).Elem()
+}
+
+// ---- proto.Clone / Equal / Merge / Reset ----
+
+func (ex *Exec) pbCloneMsg(m *PRMsg) *PRMsg {
+	if m.L == nil {
+		return &PRMsg{Info: m.Info}
+	}
+	n := ex.newMsg(m.Info)
+	ex.pbMerge(n, m)
+	if ns, ok := ghostNS(m.L); ok {
+		// a fresh clone of a normalised Duration/Timestamp has the same fields, hence the same ghost
+		for i, k := range m.L.Kids {
+			if i > 0 && k.Kids == nil {
+				n.L.Kids[i].V = k.V
+			}
+		}
+		ex.setGhostNS(n.L, ns)
+	}
+	return n
+}
+
+func (ex *Exec) cloneGoElem(f *pbFieldInfo, v Value) Value {
+	switch valKind(f.Kind) {
+	case "message":
+		p, _ := v.(Ptr)
+		if p.L == nil {
+			return Ptr{}
+		}
+		c := ex.pbCloneMsg(&PRMsg{L: p.L, Info: ex.infoOfPtrT(f.MsgT)})
+		return Ptr{c.L}
+	case "bytes":
+		return ex.cloneBytes(v)
+	}
+	return v
+}
+
+func (ex *Exec) cloneBytes(v Value) Value {
+	sv, _ := v.(SliceV)
+	if sv.Arr == nil {
+		return SliceV{}
+	}
+	arr := ex.newArrayLoc(sv.Arr.T.(*types.Array).Elem(), sv.Len)
+	for i := 0; i < sv.Len; i++ {
+		arr.Kids[i].V = sv.Arr.Kids[sv.Off+i].V
+	}
+	return SliceV{Arr: arr, Len: sv.Len, Cap: sv.Len}
+}
+
+// pbMerge implements proto.Merge(dst, src).
+func (ex *Exec) pbMerge(dst, src *PRMsg) {
+	if src.L == nil {
+		return
+	}
+	if dst.L == nil {
+		ex.pbPanic("proto: merge into invalid (nil) message")
+	}
+	B := ex.B
+	for _, f := range src.Info.Fields {
+		switch {
+		case f.Map:
+			smv, _ := src.slot(f).V.(MapV)
+			if smv.M == nil || len(smv.M.Keys) == 0 {
+				continue
+			}
+			dm := ex.pbMutable(dst, f).Mp.Slot.V.(MapV).M
+			for i, k := range smv.M.Keys {
+				ex.mapSet(dm, k, ex.cloneGoElem(f.MapVal, ex.load(smv.M.Vals[i])))
+			}
+		case f.List:
+			ssv, _ := src.slot(f).V.(SliceV)
+			if ssv.Len == 0 {
+				continue
+			}
+			var add []Value
+			for i := 0; i < ssv.Len; i++ {
+				add = append(add, ex.cloneGoElem(f, ex.load(ssv.Arr.Kids[ssv.Off+i])))
+			}
+			dsv, _ := dst.slot(f).V.(SliceV)
+			ex.store(dst.slot(f), ex.appendVals(ex.cur, dsv, ex.elemType(f), add))
+		case f.Oneof != "":
+			w := ex.oneofWrapper(src, f)
+			if w == nil {
+				continue
+			}
+			if valKind(f.Kind) == "message" {
+				sp, _ := w.Kids[0].V.(Ptr)
+				dv := ex.pbMutable(dst, f)
+				ex.pbMerge(dv.M, &PRMsg{L: sp.L, Info: dv.M.Info})
+				continue
+			}
+			nw := ex.newLoc(f.WrapT.(*types.Pointer).Elem())
+			ex.storeRaw(nw.Kids[0], ex.cloneGoElem(f, w.Kids[0].V))
+			ex.store(dst.slot(f), IfaceV{T: f.WrapT, V: Ptr{nw}})
+		case valKind(f.Kind) == "message":
+			sp, _ := src.slot(f).V.(Ptr)
+			if sp.L == nil {
+				continue
+			}
+			dv := ex.pbMutable(dst, f)
+			ex.pbMerge(dv.M, &PRMsg{L: sp.L, Info: dv.M.Info})
+		case f.Explicit:
+			sp, _ := src.slot(f).V.(Ptr)
+			if sp.L == nil {
+				continue
+			}
+			cell := ex.newLoc(f.GoT.(*types.Pointer).Elem())
+			cell.V = ex.cloneGoElem(f, sp.L.V)
+			ex.store(dst.slot(f), Ptr{cell})
+		case f.Kind == "bytes":
+			ssv, _ := src.slot(f).V.(SliceV)
+			if ssv.Len == 0 {
+				continue
+			}
+			ex.store(dst.slot(f), ex.cloneBytes(ssv))
+		default:
+			sv := termOf(src.slot(f).V)
+			dv := termOf(dst.slot(f).V)
+			nv := B.Ite(ex.nonZero(f.Kind, sv), sv, dv)
+			if nv != dv {
+				ex.store(dst.slot(f), nv)
+			}
+		}
+	}
+}
+
+func (ex *Exec) pbReset(m *PRMsg) {
+	if m.L == nil {
+		return
+	}
+	for i, k := range m.L.Kids {
+		if i == 0 {
+			continue // state
+		}
+		ex.store(k, ex.zero(k.T))
+	}
+}
+
+// scalarEq: proto.Equal on scalars (NaN equals NaN; implicit presence makes -0 differ from +0).
+func (ex *Exec) scalarEq(kind string, a, b *smt.Term, implicit bool) *smt.Term {
+	B := ex.B
+	if a.Sort.K == smt.KFP {
+		bothNaN := B.And(B.FUn(smt.OFIsNaN, a), B.FUn(smt.OFIsNaN, b))
+		if implicit {
+			return B.Or(bothNaN, B.Eq(B.FToBits(a), B.FToBits(b)))
+		}
+		return B.Or(bothNaN, B.FCmp(smt.OFEq, a, b))
+	}
+	return B.Eq(a, b)
+}
+
+func (ex *Exec) elemEq(f *pbFieldInfo, a, b Value) *smt.Term {
+	switch valKind(f.Kind) {
+	case "message":
+		pa, _ := a.(Ptr)
+		pb, _ := b.(Ptr)
+		info := ex.infoOfPtrT(f.MsgT)
+		return ex.pbEqualMsg(&PRMsg{L: pa.L, Info: info}, &PRMsg{L: pb.L, Info: info})
+	case "bytes":
+		return ex.bytesEq(a, b)
+	}
+	return ex.scalarEq(f.Kind, termOf(a), termOf(b), false)
+}
+
+func (ex *Exec) bytesEq(a, b Value) *smt.Term {
+	sa, _ := a.(SliceV)
+	sb, _ := b.(SliceV)
+	if sa.Len != sb.Len {
+		return ex.B.False()
+	}
+	var cs []*smt.Term
+	for i := 0; i < sa.Len; i++ {
+		cs = append(cs, ex.B.Eq(termOf(sa.Arr.Kids[sa.Off+i].V), termOf(sb.Arr.Kids[sb.Off+i].V)))
+	}
+	return ex.B.And(cs...)
+}
+
+// pbEqualMsg implements the message comparison of proto.Equal as a term.
+func (ex *Exec) pbEqualMsg(x, y *PRMsg) *smt.Term {
+	B := ex.B
+	if x.Info != y.Info {
+		return B.False()
+	}
+	if x.L == nil || y.L == nil {
+		// list elements / nested: an invalid message equals an invalid message; nil vs empty differ at the field level (presence)
+		if x.L == nil && y.L == nil {
+			return B.True()
+		}
+		// proto.Equal treats a nil nested message inside a list as equal to an empty one? No: Get returns invalid vs valid,
+		// equalMessage ranges over fields only, so nil and empty compare equal at this level.
+		var other *PRMsg
+		if x.L == nil {
+			other = y
+		} else {
+			other = x
+		}
+		var cs []*smt.Term
+		for _, f := range other.Info.Fields {
+			cs = append(cs, B.Not(ex.pbHas(other, f)))
+		}
+		return B.And(cs...)
+	}
+	if gx, ok := ghostNS(x.L); ok {
+		if gy, ok := ghostNS(y.L); ok {
+			// both built by New from an exact nanosecond value: New is injective
+			return B.Eq(gx, gy)
+		}
+	}
+	if x.L == y.L {
+		// same object: equal unless NaN ... proto.Equal short-circuits identical pointers to true
+		return B.True()
+	}
+	var cs []*smt.Term
+	for _, f := range x.Info.Fields {
+		switch {
+		case f.Map:
+			xm, _ := x.slot(f).V.(MapV)
+			ym, _ := y.slot(f).V.(MapV)
+			nx, ny := 0, 0
+			if xm.M != nil {
+				nx = len(xm.M.Keys)
+			}
+			if ym.M != nil {
+				ny = len(ym.M.Keys)
+			}
+			if nx != ny {
+				return B.False()
+			}
+			for i := 0; i < nx; i++ {
+				var alts []*smt.Term
+				for j := 0; j < ny; j++ {
+					alts = append(alts, B.And(ex.keyEq(xm.M.Keys[i], ym.M.Keys[j]),
+						ex.elemEq(f.MapVal, ex.load(xm.M.Vals[i]), ex.load(ym.M.Vals[j]))))
+				}
+				cs = append(cs, B.Or(alts...))
+			}
+		case f.List:
+			xs, _ := x.slot(f).V.(SliceV)
+			ys, _ := y.slot(f).V.(SliceV)
+			if xs.Len != ys.Len {
+				return B.False()
+			}
+			for i := 0; i < xs.Len; i++ {
+				cs = append(cs, ex.elemEq(f, ex.load(xs.Arr.Kids[xs.Off+i]), ex.load(ys.Arr.Kids[ys.Off+i])))
+			}
+		case f.Oneof != "":
+			wx, wy := ex.oneofWrapper(x, f), ex.oneofWrapper(y, f)
+			if (wx == nil) != (wy == nil) {
+				return B.False()
+			}
+			if wx != nil {
+				if valKind(f.Kind) == "message" {
+					cs = append(cs, ex.elemEq(f, wx.Kids[0].V, wy.Kids[0].V))
+				} else {
+					cs = append(cs, ex.elemEq(f, wx.Kids[0].V, wy.Kids[0].V))
+				}
+			}
+		case valKind(f.Kind) == "message":
+			px, _ := x.slot(f).V.(Ptr)
+			py, _ := y.slot(f).V.(Ptr)
+			if (px.L == nil) != (py.L == nil) {
+				return B.False()
+			}
+			if px.L != nil {
+				cs = append(cs, ex.elemEq(f, px, py))
+			}
+		case f.Explicit:
+			px, _ := x.slot(f).V.(Ptr)
+			py, _ := y.slot(f).V.(Ptr)
+			if (px.L == nil) != (py.L == nil) {
+				return B.False()
+			}
+			if px.L != nil {
+				cs = append(cs, ex.elemEq(f, px.L.V, py.L.V))
+			}
+		case f.Kind == "bytes":
+			cs = append(cs, ex.bytesEq(x.slot(f).V, y.slot(f).V))
+		default:
+			cs = append(cs, ex.scalarEq(f.Kind, termOf(x.slot(f).V), termOf(y.slot(f).V), true))
+		}
+	}
+	return B.And(cs...)
+}
+
+// pbEqual implements proto.Equal on interface values.
+func (ex *Exec) pbEqual(a, b Value) *smt.Term {
+	B := ex.B
+	ia, _ := a.(IfaceV)
+	ib, _ := b.(IfaceV)
+	na, nb := ia.T == nil && ia.V == nil, ib.T == nil && ib.V == nil
+	if na || nb {
+		return B.BoolC(na && nb)
+	}
+	ta, okA := ia.V.(TokenV)
+	tb, okB := ib.V.(TokenV)
+	if okA || okB {
+		if okA && okB {
+			return B.Eq(ta.ID, tb.ID)
+		}
+		return B.False()
+	}
+	ma, ok1 := ex.prMsgOf(ia)
+	mb, ok2 := ex.prMsgOf(ib)
+	if !ok1 || !ok2 {
+		ex.unsupported(fmt.Sprintf("proto.Equal on %T / %T", ia.V, ib.V))
+	}
+	if ma.Info != mb.Info {
+		return B.False()
+	}
+	if (ma.L == nil) != (mb.L == nil) {
+		return B.False()
+	}
+	if ma.L == nil {
+		return B.True()
+	}
+	return ex.pbEqualMsg(ma, mb)
+}
+
+func init() {
+	reg("google.golang.org/protobuf/proto.Clone", func(ex *Exec, g *G, fn *ssa.Function, args []Value, done func(Value)) {
+		iv, _ := args[0].(IfaceV)
+		if iv.T == nil && iv.V == nil {
+			done(IfaceV{})
+			return
+		}
+		if tk, ok := iv.V.(TokenV); ok {
+			ex.tokGen++
+			done(IfaceV{T: iv.T, V: TokenV{ID: tk.ID, Gen: ex.tokGen}})
+			return
+		}
+		m, ok := ex.prMsgOf(iv)
+		if !ok {
+			ex.unsupported(fmt.Sprintf("proto.Clone of %T", iv.V))
+		}
+		ex.guardPB(g, func() { done(ex.msgIface(ex.pbCloneMsg(m))) })
+	})
+	reg("google.golang.org/protobuf/proto.Equal", func(ex *Exec, g *G, fn *ssa.Function, args []Value, done func(Value)) {
+		done(ex.pbEqual(args[0], args[1]))
+	})
+	reg("google.golang.org/protobuf/proto.Merge", func(ex *Exec, g *G, fn *ssa.Function, args []Value, done func(Value)) {
+		d, ok1 := ex.prMsgOf(args[0])
+		s, ok2 := ex.prMsgOf(args[1])
+		if !ok1 || !ok2 {
+			ex.unsupported("proto.Merge on non-message")
+		}
+		if d.Info != s.Info {
+			ex.goPanic(g, nil, "descriptor mismatch: "+d.Info.FullName+" != "+s.Info.FullName)
+			return
+		}
+		ex.guardPB(g, func() { ex.pbMerge(d, s); done(nil) })
+	})
+	reg("google.golang.org/protobuf/proto.Reset", func(ex *Exec, g *G, fn *ssa.Function, args []Value, done func(Value)) {
+		m, ok := ex.prMsgOf(args[0])
+		if !ok {
+			ex.unsupported("proto.Reset on non-message")
+		}
+		ex.pbReset(m)
+		done(nil)
+	})
+	// protoreflect.Value accessors
+	val := func(v Value) *PRVal {
+		p, ok := v.(*PRVal)
+		if !ok {
+			return &PRVal{Kind: "invalid"}
+		}
+		return p
+	}
+	pr := "(google.golang.org/protobuf/reflect/protoreflect.Value)."
+	mk := "(google.golang.org/protobuf/reflect/protoreflect.MapKey)."
+	reg(pr+"Message", func(ex *Exec, g *G, fn *ssa.Function, args []Value, done func(Value)) {
+		v := val(args[0])
+		if v.Kind != "message" {
+			ex.goPanic(g, nil, "type mismatch: cannot convert "+v.Kind+" to message")
+			return
+		}
+		done(IfaceV{V: v.M})
+	})
+	reg(pr+"List", func(ex *Exec, g *G, fn *ssa.Function, args []Value, done func(Value)) {
+		v := val(args[0])
+		if v.Kind != "list" {
+			ex.goPanic(g, nil, "type mismatch: cannot convert "+v.Kind+" to list")
+			return
+		}
+		done(IfaceV{V: v.L})
+	})
+	reg(pr+"Map", func(ex *Exec, g *G, fn *ssa.Function, args []Value, done func(Value)) {
+		v := val(args[0])
+		if v.Kind != "map" {
+			ex.goPanic(g, nil, "type mismatch: cannot convert "+v.Kind+" to map")
+			return
+		}
+		done(IfaceV{V: v.Mp})
+	})
+	reg(pr+"Bool", func(ex *Exec, g *G, fn *ssa.Function, args []Value, done func(Value)) {
+		v := val(args[0])
+		if v.Kind != "bool" {
+			ex.goPanic(g, nil, "type mismatch: cannot convert "+v.Kind+" to bool")
+			return
+		}
+		done(v.T)
+	})
+	reg(pr+"Int", func(ex *Exec, g *G, fn *ssa.Function, args []Value, done func(Value)) {
+		v := val(args[0])
+		if v.Kind != "int32" && v.Kind != "int64" {
+			ex.goPanic(g, nil, "type mismatch: cannot convert "+v.Kind+" to int")
+			return
+		}
+		done(ex.B.Sext(v.T, 64))
+	})
+	reg(pr+"Uint", func(ex *Exec, g *G, fn *ssa.Function, args []Value, done func(Value)) {
+		v := val(args[0])
+		if v.Kind != "uint32" && v.Kind != "uint64" {
+			ex.goPanic(g, nil, "type mismatch: cannot convert "+v.Kind+" to uint")
+			return
+		}
+		done(ex.B.Zext(v.T, 64))
+	})
+	reg(pr+"Float", func(ex *Exec, g *G, fn *ssa.Function, args []Value, done func(Value)) {
+		v := val(args[0])
+		if v.Kind != "float" && v.Kind != "double" {
+			ex.goPanic(g, nil, "type mismatch: cannot convert "+v.Kind+" to float")
+			return
+		}
+		done(ex.B.FToFP(v.T, 64))
+	})
+	reg(pr+"Enum", func(ex *Exec, g *G, fn *ssa.Function, args []Value, done func(Value)) {
+		v := val(args[0])
+		if v.Kind != "enum" {
+			ex.goPanic(g, nil, "type mismatch: cannot convert "+v.Kind+" to enum")
+			return
+		}
+		done(v.T)
+	})
+	reg(pr+"String|"+mk+"String", func(ex *Exec, g *G, fn *ssa.Function, args []Value, done func(Value)) {
+		v := val(args[0])
+		if v.Kind != "string" {
+			done(ex.strC("<value>"))
+			return
+		}
+		done(v.T)
+	})
+	reg(pr+"Bytes", func(ex *Exec, g *G, fn *ssa.Function, args []Value, done func(Value)) {
+		v := val(args[0])
+		if v.Kind != "bytes" {
+			ex.goPanic(g, nil, "type mismatch: cannot convert "+v.Kind+" to bytes")
+			return
+		}
+		done(v.B)
+	})
+	reg(pr+"IsValid", func(ex *Exec, g *G, fn *ssa.Function, args []Value, done func(Value)) {
+		v := val(args[0])
+		done(ex.boolC(v.Kind != "invalid"))
+	})
+	reg(pr+"MapKey", func(ex *Exec, g *G, fn *ssa.Function, args []Value, done func(Value)) { done(args[0]) })
+	reg(mk+"Value", func(ex *Exec, g *G, fn *ssa.Function, args []Value, done func(Value)) { done(args[0]) })
+	reg(pr+"Interface|"+mk+"Interface", func(ex *Exec, g *G, fn *ssa.Function, args []Value, done func(Value)) {
+		v := val(args[0])
+		switch v.Kind {
+		case "message":
+			done(IfaceV{V: v.M})
+		case "list":
+			done(IfaceV{V: v.L})
+		case "map":
+			done(IfaceV{V: v.Mp})
+		case "invalid":
+			done(IfaceV{})
+		default:
+			ex.unsupported("protoreflect.Value.Interface of scalar")
+		}
+	})
+	vo := "google.golang.org/protobuf/reflect/protoreflect.ValueOf"
+	mkScalar := func(kind string) intrinsic {
+		return func(ex *Exec, g *G, fn *ssa.Function, args []Value, done func(Value)) {
+			done(&PRVal{Kind: kind, T: termOf(args[0])})
+		}
+	}
+	reg(vo+"Bool", mkScalar("bool"))
+	reg(vo+"Int32", mkScalar("int32"))
+	reg(vo+"Int64", mkScalar("int64"))
+	reg(vo+"Uint32", mkScalar("uint32"))
+	reg(vo+"Uint64", mkScalar("uint64"))
+	reg(vo+"Float32", mkScalar("float"))
+	reg(vo+"Float64", mkScalar("double"))
+	reg(vo+"String", mkScalar("string"))
+	reg(vo+"Enum", mkScalar("enum"))
+	reg(vo+"Bytes", func(ex *Exec, g *G, fn *ssa.Function, args []Value, done func(Value)) {
+		sv, _ := args[0].(SliceV)
+		done(&PRVal{Kind: "bytes", B: sv})
+	})
+	reg(vo+"Message", func(ex *Exec, g *G, fn *ssa.Function, args []Value, done func(Value)) {
+		iv, _ := args[0].(IfaceV)
+		m, ok := iv.V.(*PRMsg)
+		if !ok {
+			ex.unsupported("ValueOfMessage of non-model message")
+		}
+		done(&PRVal{Kind: "message", M: m})
+	})
+	reg(vo+"List", func(ex *Exec, g *G, fn *ssa.Function, args []Value, done func(Value)) {
+		iv, _ := args[0].(IfaceV)
+		done(&PRVal{Kind: "list", L: iv.V.(*PRList)})
+	})
+	reg(vo+"Map", func(ex *Exec, g *G, fn *ssa.Function, args []Value, done func(Value)) {
+		iv, _ := args[0].(IfaceV)
+		done(&PRVal{Kind: "map", Mp: iv.V.(*PRMap)})
+	})
+	reg("(google.golang.org/protobuf/internal/impl.Export).NewError", func(ex *Exec, g *G, fn *ssa.Function, args []Value, done func(Value)) {
+		done(ex.errIface(&ErrObj{Kind: "errors", Msg: "proto: " + ex.fmtString(args[1:])}))
+	})
+}
+
+// guardPB runs f converting model-level protobuf panics into Go panics of the goroutine.
+func (ex *Exec) guardPB(g *G, f func()) {
+	defer func() {
+		if r := recover(); r != nil {
+			if _, ok := r.(pbUnwind); ok {
+				return
+			}
+			panic(r)
+		}
+	}()
+	f()
+}
+
+// patternIntrinsic recognises generated-code methods by shape.
 func (ex *Exec) patternIntrinsic(fn *ssa.Function, name string) intrinsic {
+	if fn.Signature.Recv() == nil {
+		return nil
+	}
+	n, ok := isPBPtr(fn.Signature.Recv().Type())
+	if !ok {
+		return nil
+	}
+	switch fn.Name() {
+	case "ProtoReflect":
+		return func(ex *Exec, g *G, fn *ssa.Function, args []Value, done func(Value)) {
+			p, _ := args[0].(Ptr)
+			done(IfaceV{V: &PRMsg{L: p.L, Info: ex.E.msgInfo(n)}})
+		}
+	case "Reset":
+		return func(ex *Exec, g *G, fn *ssa.Function, args []Value, done func(Value)) {
+			p, _ := args[0].(Ptr)
+			ex.pbReset(&PRMsg{L: p.L, Info: ex.E.msgInfo(n)})
+			done(nil)
+		}
+	case "String":
+		return func(ex *Exec, g *G, fn *ssa.Function, args []Value, done func(Value)) {
+			done(ex.strC("<" + n.Obj().Name() + ">"))
+		}
+	case "ProtoMessage":
+		return func(ex *Exec, g *G, fn *ssa.Function, args []Value, done func(Value)) { done(nil) }
+	}
 	return nil
 }
 
@@ -30,4 +1210,343 @@ func (ex *Exec) tokenMsgType() types.Type {
 		ex.unsupported("wrapperspb not loaded (needed for vt.Msg)")
 	}
 	return types.NewPointer(p.Type("Int64Value").Type())
+}
+
+func fdOf(ex *Exec, v Value) *pbFieldInfo {
+	iv, _ := v.(IfaceV)
+	f, ok := iv.V.(*PRField)
+	if !ok {
+		ex.unsupported(fmt.Sprintf("field descriptor of kind %T", iv.V))
+	}
+	return f.F
+}
+
+func (ex *Exec) descIface(info *pbMsgInfo) Value { return IfaceV{V: info.desc} }
+
+// pbMethod dispatches methods of the protoreflect model objects.
+func (ex *Exec) pbMethod(g *G, recv Value, name string, args []Value, done func(Value)) {
+	ex.res.Stubs["protoreflect."+strings.TrimPrefix(fmt.Sprintf("%T", recv), "*sym.")+"."+name] = true
+	ex.guardPB(g, func() { ex.pbMethod1(g, recv, name, args, done) })
+}
+
+func (ex *Exec) pbMethod1(g *G, recv Value, name string, args []Value, done func(Value)) {
+	B := ex.B
+	switch r := recv.(type) {
+	case *PRMsg:
+		switch name {
+		case "Descriptor":
+			done(ex.descIface(r.Info))
+		case "Interface":
+			done(ex.msgIface(r))
+		case "IsValid":
+			done(ex.boolC(r.L != nil))
+		case "New":
+			done(IfaceV{V: ex.newMsg(r.Info)})
+		case "Type":
+			done(IfaceV{V: r.Info.desc})
+		case "GetUnknown":
+			done(SliceV{})
+		case "SetUnknown":
+			done(nil)
+		case "Has":
+			done(ex.pbHas(r, fdOf(ex, args[0])))
+		case "Get":
+			done(ex.pbGet(r, fdOf(ex, args[0])))
+		case "Clear":
+			ex.pbClear(r, fdOf(ex, args[0]))
+			done(nil)
+		case "Set":
+			ex.pbSet(r, fdOf(ex, args[0]), args[1].(*PRVal))
+			done(nil)
+		case "Mutable":
+			done(ex.pbMutable(r, fdOf(ex, args[0])))
+		case "NewField":
+			f := fdOf(ex, args[0])
+			switch {
+			case f.Map:
+				mt := f.GoT.Underlying().(*types.Map)
+				slot := ex.newLoc(f.GoT)
+				ex.nobj++
+				slot.V = MapV{&MapObj{KT: mt.Key(), VT: mt.Elem(), ID: ex.nobj}}
+				done(&PRVal{Kind: "map", Mp: &PRMap{Slot: slot, F: f}})
+			case f.List:
+				slot := ex.newLoc(f.GoT)
+				done(&PRVal{Kind: "list", L: &PRList{Slot: slot, F: f}})
+			case valKind(f.Kind) == "message":
+				done(&PRVal{Kind: "message", M: ex.newMsg(ex.infoOfPtrT(f.MsgT))})
+			default:
+				done(ex.valFromGo(f, nil))
+			}
+		case "Range":
+			if r.L == nil {
+				done(nil)
+				return
+			}
+			for _, f := range r.Info.Fields {
+				if !ex.branch(ex.pbHas(r, f)) {
+					continue
+				}
+				cv := ex.callSync(g, args[0], []Value{IfaceV{V: ex.fieldDesc(f)}, ex.pbGet(r, f)})
+				if g.panic != nil {
+					return
+				}
+				if !ex.branch(termOf(cv)) {
+					break
+				}
+			}
+			done(nil)
+		case "WhichOneof":
+			ex.unsupported("WhichOneof")
+		default:
+			ex.unsupported("protoreflect.Message." + name)
+		}
+	case *PRField:
+		f := r.F
+		switch name {
+		case "Name":
+			done(ex.strC(f.Name))
+		case "FullName":
+			done(ex.strC(f.Parent.FullName + "." + f.Name))
+		case "JSONName":
+			done(ex.strC(f.JSON))
+		case "TextName":
+			done(ex.strC(f.Name))
+		case "Number":
+			done(B.BVC(uint64(f.Number), 32))
+		case "Index":
+			done(ex.intC(f.Index))
+		case "Kind":
+			done(B.BVC(kindNum[f.Kind], 8))
+		case "Cardinality":
+			c := uint64(1)
+			if f.List || f.Map {
+				c = 3
+			}
+			done(B.BVC(c, 8))
+		case "IsList":
+			done(ex.boolC(f.List))
+		case "IsMap":
+			done(ex.boolC(f.Map))
+		case "IsExtension", "IsWeak", "IsPacked", "IsPlaceholder":
+			done(ex.boolC(false))
+		case "HasPresence":
+			done(ex.boolC(f.Explicit && !f.List && !f.Map))
+		case "HasOptionalKeyword":
+			done(ex.boolC(f.Explicit && f.Oneof == "" && valKind(f.Kind) != "message"))
+		case "Message":
+			if f.Map || f.MsgT == nil {
+				done(IfaceV{})
+			} else {
+				done(ex.descIface(ex.infoOfPtrT(f.MsgT)))
+			}
+		case "ContainingMessage", "Parent":
+			done(ex.descIface(f.Parent))
+		case "ContainingOneof":
+			done(IfaceV{}) // oneof descriptors are not modelled; nil means "not in a oneof" to callers that only test presence
+		case "MapKey":
+			if f.MapKey == nil {
+				done(IfaceV{})
+			} else {
+				done(IfaceV{V: ex.fieldDesc(f.MapKey)})
+			}
+		case "MapValue":
+			if f.MapVal == nil {
+				done(IfaceV{})
+			} else {
+				done(IfaceV{V: ex.fieldDesc(f.MapVal)})
+			}
+		case "Default":
+			done(ex.valFromGo(f, nil))
+		default:
+			ex.unsupported("protoreflect.FieldDescriptor." + name)
+		}
+	case *PRMsgDesc:
+		switch name {
+		case "Fields":
+			done(IfaceV{V: &PRFields{Info: r.Info}})
+		case "FullName":
+			done(ex.strC(r.Info.FullName))
+		case "Name":
+			done(ex.strC(r.Info.Name))
+		case "Descriptor":
+			done(ex.descIface(r.Info))
+		case "IsMapEntry", "IsPlaceholder":
+			done(ex.boolC(false))
+		case "New":
+			done(IfaceV{V: ex.newMsg(r.Info)})
+		case "Zero":
+			done(IfaceV{V: &PRMsg{Info: r.Info}})
+		default:
+			ex.unsupported("protoreflect.MessageDescriptor." + name)
+		}
+	case *PRFields:
+		switch name {
+		case "Len":
+			done(ex.intC(len(r.Info.Fields)))
+		case "Get":
+			i, ok := concInt(args[0])
+			if !ok || i < 0 || i >= len(r.Info.Fields) {
+				ex.unsupported("FieldDescriptors.Get with symbolic/out of range index")
+			}
+			done(IfaceV{V: ex.fieldDesc(r.Info.Fields[i])})
+		case "ByName", "ByTextName", "ByJSONName":
+			nm, ok := concStr(args[0])
+			if !ok {
+				ex.unsupported("FieldDescriptors.ByName with symbolic name")
+			}
+			for _, f := range r.Info.Fields {
+				if (name == "ByJSONName" && f.JSON == nm) || (name != "ByJSONName" && f.Name == nm) {
+					done(IfaceV{V: ex.fieldDesc(f)})
+					return
+				}
+			}
+			done(IfaceV{})
+		case "ByNumber":
+			i, ok := concInt(args[0])
+			if !ok {
+				ex.unsupported("ByNumber symbolic")
+			}
+			for _, f := range r.Info.Fields {
+				if f.Number == i {
+					done(IfaceV{V: ex.fieldDesc(f)})
+					return
+				}
+			}
+			done(IfaceV{})
+		default:
+			ex.unsupported("protoreflect.FieldDescriptors." + name)
+		}
+	case *PRList:
+		sv := r.slice()
+		switch name {
+		case "Len":
+			done(ex.intC(sv.Len))
+		case "IsValid":
+			done(ex.boolC(r.Slot != nil))
+		case "Get":
+			i, ok := ex.boundIndex(g, termOf(args[0]), sv.Len)
+			if !ok {
+				return
+			}
+			done(ex.listElemVal(r, i))
+		case "Set":
+			i, ok := ex.boundIndex(g, termOf(args[0]), sv.Len)
+			if !ok {
+				return
+			}
+			ex.store(sv.Arr.Kids[sv.Off+i], ex.goFromVal(r.F, args[1].(*PRVal)))
+			done(nil)
+		case "Append":
+			if r.Slot == nil {
+				ex.pbPanic("append to read-only list")
+			}
+			ex.store(r.Slot, ex.appendVals(g, sv, ex.elemType(r.F), []Value{ex.goFromVal(r.F, args[0].(*PRVal))}))
+			done(nil)
+		case "AppendMutable":
+			if r.Slot == nil {
+				ex.pbPanic("append to read-only list")
+			}
+			nm := ex.newMsg(ex.infoOfPtrT(r.F.MsgT))
+			ex.store(r.Slot, ex.appendVals(g, sv, ex.elemType(r.F), []Value{Ptr{nm.L}}))
+			done(&PRVal{Kind: "message", M: nm})
+		case "NewElement":
+			if valKind(r.F.Kind) == "message" {
+				done(&PRVal{Kind: "message", M: ex.newMsg(ex.infoOfPtrT(r.F.MsgT))})
+			} else {
+				done(ex.valFromGo(r.F, nil))
+			}
+		case "Truncate":
+			n, ok := concInt(args[0])
+			if !ok || n < 0 || n > sv.Len {
+				ex.unsupported("List.Truncate")
+			}
+			for i := n; i < sv.Len; i++ {
+				ex.store(sv.Arr.Kids[sv.Off+i], ex.zero(ex.elemType(r.F)))
+			}
+			ex.store(r.Slot, SliceV{Arr: sv.Arr, Off: sv.Off, Len: n, Cap: sv.Cap})
+			done(nil)
+		default:
+			ex.unsupported("protoreflect.List." + name)
+		}
+	case *PRMap:
+		var mo *MapObj
+		if r.Slot != nil {
+			mv, _ := r.Slot.V.(MapV)
+			mo = mv.M
+		}
+		keyOf := func(v Value) Value {
+			pv := v.(*PRVal)
+			return pv.T
+		}
+		switch name {
+		case "Len":
+			if mo == nil {
+				done(ex.intC(0))
+			} else {
+				done(ex.intC(len(mo.Keys)))
+			}
+		case "IsValid":
+			done(ex.boolC(mo != nil))
+		case "Has":
+			i := ex.mapFind(mo, keyOf(args[0]))
+			done(ex.boolC(i >= 0))
+		case "Get":
+			i := ex.mapFind(mo, keyOf(args[0]))
+			if i < 0 {
+				done(&PRVal{Kind: "invalid"})
+			} else {
+				done(ex.valFromGo(r.F.MapVal, mo.Vals[i]))
+			}
+		case "Set":
+			if mo == nil {
+				ex.pbPanic("assignment to entry in nil map")
+			}
+			ex.mapSet(mo, keyOf(args[0]), ex.goFromVal(r.F.MapVal, args[1].(*PRVal)))
+			done(nil)
+		case "Clear":
+			if mo != nil {
+				ex.mapDelete(mo, keyOf(args[0]))
+			}
+			done(nil)
+		case "Range":
+			if mo != nil {
+				keys := append([]Value(nil), mo.Keys...)
+				vals := append([]*Loc(nil), mo.Vals...)
+				for i := range keys {
+					kv := &PRVal{Kind: valKind(r.F.MapKey.Kind), T: termOf(keys[i])}
+					cv := ex.callSync(g, args[0], []Value{kv, ex.valFromGo(r.F.MapVal, vals[i])})
+					if g.panic != nil {
+						return
+					}
+					if !ex.branch(termOf(cv)) {
+						break
+					}
+				}
+			}
+			done(nil)
+		case "NewValue":
+			if valKind(r.F.MapVal.Kind) == "message" {
+				done(&PRVal{Kind: "message", M: ex.newMsg(ex.infoOfPtrT(r.F.MapVal.MsgT))})
+			} else {
+				done(ex.valFromGo(r.F.MapVal, nil))
+			}
+		default:
+			ex.unsupported("protoreflect.Map." + name)
+		}
+	default:
+		ex.unsupported(fmt.Sprintf("protobuf model method %s on %T", name, recv))
+	}
+}
+
+// fieldDesc returns the canonical descriptor object of a field (identity-comparable within a path).
+func (ex *Exec) fieldDesc(f *pbFieldInfo) *PRField {
+	if ex.fdCache == nil {
+		ex.fdCache = map[*pbFieldInfo]*PRField{}
+	}
+	if d, ok := ex.fdCache[f]; ok {
+		return d
+	}
+	d := &PRField{F: f}
+	ex.fdCache[f] = d
+	return d
 }
